@@ -196,6 +196,11 @@ constexpr int NSLOT = 3;
 //   slot 2 = (fnA, &S1): {a=3}                                 value 40+5v
 // Slots 0/1 share the state pointer and slots 0/2 share the function pointer, so that removal has to
 // compare both.
+// rep[j] = how many times ONE invocation of slot j observes each of its attribute sets (1..3): the
+// earlier observations carry provisional values (truth + 100, truth + 200), the last one the truth
+// ("replays buffered samples oldest first" / "provisional, then corrected total"). The last
+// observation of an invocation is what the callback reported. Slot 0 exercises both Observe
+// overloads this way ({} through Observe(value), {a=1} through Observe(value, attributes)).
 struct World;
 struct CbState { World *w; int slotA; int slotB; };
 struct World {
@@ -204,6 +209,7 @@ struct World {
   int64_t v[NSLOT] = {1, 1, 1};
   bool extra0 = false;  // slot 0 also reports {a=1}
   bool on1 = true;      // slot 1 reports {a=2}
+  int rep[NSLOT] = {1, 1, 1};
   bool wrong_type = false;
   CbState s0, s1;
   int64_t value(int attr) const {
@@ -221,17 +227,19 @@ struct World {
     unsigned m = mask(slot);
     for (int a = 0; a < NATTR; ++a) {
       if (!(m & (1u << a))) continue;
-      int64_t u = value(a);
-      if (is_double) {
-        if (!nostd::holds_alternative<nostd::shared_ptr<api::ObserverResultT<double>>>(res)) { wrong_type = true; return; }
-        auto &o = nostd::get<nostd::shared_ptr<api::ObserverResultT<double>>>(res);
-        if (a == 0) o->Observe((double)u / 4.0);
-        else o->Observe((double)u / 4.0, {{"a", (int32_t)a}});
-      } else {
-        if (!nostd::holds_alternative<nostd::shared_ptr<api::ObserverResultT<int64_t>>>(res)) { wrong_type = true; return; }
-        auto &o = nostd::get<nostd::shared_ptr<api::ObserverResultT<int64_t>>>(res);
-        if (a == 0) o->Observe(u);
-        else o->Observe(u, {{"a", (int32_t)a}});
+      for (int k = rep[slot] - 1; k >= 0; --k) {  // k == 0: the final, true observation
+        int64_t u = value(a) + 100 * k;
+        if (is_double) {
+          if (!nostd::holds_alternative<nostd::shared_ptr<api::ObserverResultT<double>>>(res)) { wrong_type = true; return; }
+          auto &o = nostd::get<nostd::shared_ptr<api::ObserverResultT<double>>>(res);
+          if (a == 0) o->Observe((double)u / 4.0);
+          else o->Observe((double)u / 4.0, {{"a", (int32_t)a}});
+        } else {
+          if (!nostd::holds_alternative<nostd::shared_ptr<api::ObserverResultT<int64_t>>>(res)) { wrong_type = true; return; }
+          auto &o = nostd::get<nostd::shared_ptr<api::ObserverResultT<int64_t>>>(res);
+          if (a == 0) o->Observe(u);
+          else o->Observe(u, {{"a", (int32_t)a}});
+        }
       }
     }
   }
@@ -314,11 +322,12 @@ void run_observable(vf::Ctx &c) {
   auto model_state = [&](vf::H128 &h) {
     for (int j = 0; j < NSLOT; ++j) { h.add(registered[j]); h.add((uint64_t)w.v[j]); }
     h.add(w.extra0); h.add(w.on1);
+    for (int j = 0; j < NSLOT; ++j) h.add((uint64_t)w.rep[j]);
     for (int a = 0; a < NATTR; ++a) { h.add(ever[a]); h.add((uint64_t)last_total[a]); }
     for (int r = 0; r < R; ++r) for (int a = 0; a < NATTR; ++a) h.add((uint64_t)given[r][a]);
   };
 
-  enum OpKind { OP_STEP, OP_DEC, OP_TOGGLE, OP_COLLECT, OP_ADD, OP_REMOVE, OP_DESTROY, OP_COLLECT_TIED };
+  enum OpKind { OP_STEP, OP_DEC, OP_TOGGLE, OP_COLLECT, OP_ADD, OP_REMOVE, OP_DESTROY, OP_COLLECT_TIED, OP_REPEAT };
   struct Op { OpKind k; int arg; };
   vf::H128 cur;
   real_state(cur);
@@ -336,6 +345,7 @@ void run_observable(vf::Ctx &c) {
         ops[n++] = {OP_STEP, j};
         if (!monotone && (j == 0 || P.rich)) ops[n++] = {OP_DEC, j};
         if (j == 0 || (j == 1 && P.rich)) ops[n++] = {OP_TOGGLE, j};
+        if (j == 0 || (j == 1 && P.rich)) ops[n++] = {OP_REPEAT, j};  // 1 -> 2 -> 3 -> 1 observations per set and invocation
       }
     }
     for (int r = 0; r < R; ++r) ops[n++] = {OP_COLLECT, r};
@@ -367,6 +377,10 @@ void run_observable(vf::Ctx &c) {
       case OP_TOGGLE:
         if (op.arg == 0) { w.extra0 = !w.extra0; hist += w.extra0 ? " appear(cb0,{a=1})" : " disappear(cb0,{a=1})"; }
         else { w.on1 = !w.on1; hist += w.on1 ? " appear(cb1,{a=2})" : " disappear(cb1,{a=2})"; }
+        break;
+      case OP_REPEAT:
+        w.rep[op.arg] = w.rep[op.arg] % 3 + 1;
+        hist += vf::sfmt(" observe-x%d(cb%d)", w.rep[op.arg], op.arg);
         break;
       case OP_ADD:
         c.stage("AddCallback");
@@ -413,10 +427,11 @@ void run_observable(vf::Ctx &c) {
         if (!psig.empty()) c.fail(S(psig), pmsg + where);
         // --- what was observed by this collection ---
         bool obs[NATTR] = {false, false, false, false};
+        bool repeated[NATTR] = {false, false, false, false};  // observed more than once by one invocation: the last observation counts
         for (int j = 0; j < NSLOT; ++j)
           if (registered[j])
             for (int a = 0; a < NATTR; ++a)
-              if (w.mask(j) & (1u << a)) { obs[a] = true; last_total[a] = w.value(a); ever[a] = true; }
+              if (w.mask(j) & (1u << a)) { obs[a] = true; repeated[a] = w.rep[j] > 1; last_total[a] = w.value(a); ever[a] = true; }
         outlog += vf::sfmt("|r%d:", r);
         if (!g.present) outlog += "-";
         for (int a = 0; a < NATTR; ++a) {
@@ -430,8 +445,10 @@ void run_observable(vf::Ctx &c) {
           if (g.has[a]) outlog += vf::sfmt("%d=%lld,", a, (long long)g.val[a]);
           if (g.has[a]) {
             if (g.val[a] != want) {
-              const char *sig = is_gauge ? "C17:gauge-not-latest-value" : delta ? "C17:delta-not-difference-from-last-given" : "C17:cumulative-not-reported-total";
-              c.fail(S(sig), vf::sfmt("reader r%d (%s), attributes %s%s: got %s, expected %s", r, delta ? "delta" : "cumulative", kAttrName[a], obs[a] ? "" : " (not observed by this collection)",
+              std::string sig = is_gauge ? "C17:gauge-not-latest-value" : delta ? "C17:delta-not-difference-from-last-given" : "C17:cumulative-not-reported-total";
+              if (repeated[a]) sig += ":repeated-observation";
+              c.fail(S(sig), vf::sfmt("reader r%d (%s), attributes %s%s: got %s, expected %s", r, delta ? "delta" : "cumulative", kAttrName[a],
+                                   !obs[a] ? " (not observed by this collection)" : repeated[a] ? " (observed several times by one invocation, the last observation counts)" : "",
                                    show_units(is_double, g.val[a]).c_str(), show_units(is_double, want).c_str()) + where);
             }
             if (!is_gauge && delta) given[r][a] = last_total[a];
